@@ -322,6 +322,18 @@ def step (s : St) : Ev → Option St
 
 def sys : Sys St Ev := { init := init, step := step }
 
+/-- The node whose field (`value`/`prev`/`next`) the thread's NEXT step dereferences, as a
+    function of its program counter.  (`Proof/Mpmc.lean`, `access_is_next`: every field
+    access `step` accepts is the one named here.) -/
+def nextAccess : Pc → Option Nat
+  | .taken n => some n            -- n->value = v        (harness)
+  | .pushCalled n _ => some n     -- new->prev = NULL
+  | .pushVal n _ _ => some n      -- new->next = tail
+  | .pushCased _ _ tl => some tl  -- tail->prev = new
+  | .popVal0 h => some h          -- head->prev
+  | .popVal1 _ p => some p        -- prev->value
+  | _ => none
+
 /-! ### API projection and the sequential specification (linearisation-point form)
 
   `api` maps an event to what it means at the API level: an invocation, a response, or the
@@ -356,6 +368,37 @@ inductive Phase
   | popPend
   | popLin (x : Nat)       -- linearised with result x (0 = EMPTY)
   deriving Repr, DecidableEq, Inhabited
+
+/-- where a thread is in its current operation, from its program counter -/
+def phaseOf : Pc → Phase
+  | .idle => .idle
+  | .scanning => .idle
+  | .taken _ => .idle
+  | .valued _ _ => .idle
+  | .pushCalled _ v => .pushPend v
+  | .pushLoop _ v => .pushPend v
+  | .pushGotTail _ v _ => .pushPend v
+  | .pushPub _ v _ => .pushPend v
+  | .pushFenced _ v _ => .pushPend v
+  | .pushVal _ v _ => .pushPend v
+  | .pushNext _ v _ => .pushPend v
+  | .pushCased _ _ _ => .pushLin
+  | .pushLinked _ _ => .pushLin
+  | .pushDone => .pushLin
+  | .popCalled => .popPend
+  | .popGotHead _ => .popPend
+  | .popPub0 _ => .popPend
+  | .popFenced0 _ => .popPend
+  | .popVal0 _ => .popPend
+  | .popEmpty => .popLin 0
+  | .popGotPrev _ _ => .popPend
+  | .popPub1 _ _ => .popPend
+  | .popFenced1 _ _ => .popPend
+  | .popVal1 _ _ => .popPend
+  | .popGotVal _ _ _ => .popPend
+  | .popCased x => .popLin x
+  | .popClr0 x => .popLin x
+  | .popDone x => .popLin x
 
 /-- Sequential FIFO queue + per-thread operation phase.  `fl` = threads whose push has
     passed its linearisation point and not yet returned ("push still in flight"). -/
